@@ -85,3 +85,12 @@ Example C08_example :
   | None => False
   end.
 Proof. vm_compute. repeat split. Qed.
+
+(* the order of steps the token-book model assumes (no second cheat while in debt,
+   fix F81; a job's pipe is made before its token is destroyed, fix F72), read
+   off the current source by tools/anchors.py *)
+From Redo Require Anchors Sched.ProtocolTie.
+Theorem C08_token_book_tied_to_source : forallb snd Anchors.protocol_facts = true.
+Proof. exact Sched.ProtocolTie.protocol_facts_hold. Qed.
+Check C08_token_book_tied_to_source : forallb snd Anchors.protocol_facts = true.
+Print Assumptions C08_token_book_tied_to_source.
